@@ -163,3 +163,55 @@ func vpC14_O1() {
 	vpAssert("distributed proof list built", err == nil)
 	vpAssert("joint proof list verifies", proofs.Verify(keysSlice, ctx, nonce, issig, kss))
 }
+
+func init() {
+	vpHarnesses["vpC14_O2"] = vpC14_O2
+}
+
+// C14-O2: a second message that lacks a part (a JSON document with the key left
+// out): the commitment of an entry, its value, one of its other commitments, the
+// user's response or the nonce. Whether the first message's hash was computed over
+// the complete input or over the same incomplete one, the server answers with an
+// error and no response - it does not panic.
+func vpC14_O2() {
+	pk, sk := vpKeys(0, 3, 1024, false)
+	userSecret, kssSecret := vpBigBits("usersecret", 255), vpBigBits("ksssecret", 255)
+	ctx, nonce := vpBigBits("ctx", 256), vpBigBits("nonce", 80)
+	issig := vpBool("issig")
+	keys := map[string]*gabikeys.PublicKey{pk.Issuer: pk}
+	kssP := new(big.Int).Exp(pk.R[0], kssSecret, pk.N)
+	builders := ProofBuilderList{vpKeyshareBuilder(0, vpChoose("kind0", 2), pk, sk, userSecret, kssP, ctx)}
+	randomizers, err := NewProofRandomizers()
+	vpAssume(err == nil)
+	commReq, hashInput, err := KeyshareUserCommitmentRequest(builders, randomizers, keys)
+	vpAssume(err == nil)
+	kssRandomizer, kssComm, err := NewKeyshareCommitments(kssSecret, []*gabikeys.PublicKey{pk})
+	vpAssume(err == nil)
+	builders[0].SetProofPCommitment(kssComm[0])
+	respReq, _, err := KeyshareUserResponseRequest(builders, randomizers, hashInput, ctx, nonce, issig)
+	vpAssume(err == nil)
+	in := respReq.UserChallengeInput
+	vpAssume(len(in) == 1)
+	switch vpChoose("missing", 6) {
+	case 0:
+		in[0].Commitment = nil
+	case 1:
+		in[0].Value = nil
+	case 2:
+		respReq.UserResponse = nil
+	case 3:
+		respReq.Nonce = nil
+	case 4:
+		in[0].OtherCommitments = append(append([]*big.Int{}, in[0].OtherCommitments...), nil)
+	case 5:
+		in[0].KeyID = nil
+		in[0].Commitment = nil
+	}
+	if vpBool("firstMessageOverTheSameInput") {
+		h, err := keyshareUserCommitmentsHash(in)
+		vpAssume(err == nil)
+		commReq.HashedUserCommitments = h
+	}
+	proofP, err := KeyshareResponse(kssSecret, kssRandomizer, commReq, respReq, keys)
+	vpAssert("server refuses an incomplete second message with an error", err != nil && proofP == nil)
+}
